@@ -75,7 +75,7 @@ fn c14_compressed_len3() {
     compressed::<3>();
 }
 
-// @harness props=C14 panics=C14,C01 tier=quick mem=8 t=1200 kani="--no-assertion-reach-checks" fn="name::wire::parse_compressed_name,name::wire::parse_pointer,name::new_boxed_name"
+// @harness props=C14 panics=C14,C01 tier=thorough mem=10 t=2400 kani="--no-assertion-reach-checks" fn="name::wire::parse_compressed_name,name::wire::parse_pointer,name::new_boxed_name"
 //   bound="every buffer of exactly 4 octets (all 2^32), every start offset 0..=N+1 (so at and beyond the end); unwind 6"
 //   stubs="S7"
 //   sym="buf:[u8;4], start<=5"
@@ -97,27 +97,7 @@ fn c14_compressed_len5() {
     compressed::<5>();
 }
 
-// @harness props=C14,C01 tier=thorough mem=14 t=3400 kani="--no-assertion-reach-checks" fn="name::wire::parse_compressed_name,name::wire::parse_pointer,name::new_boxed_name"
-//   bound="every buffer of exactly 6 octets, every start offset 0..=N+1 (so at and beyond the end); unwind 8"
-//   stubs="S7"
-//   sym="buf:[u8;6], start<=7"
-#[kani::proof]
-#[kani::unwind(8)]
-#[kani::stub(arrayvec::ArrayVec::try_extend_from_slice, try_extend_model)]
-fn c14_compressed_len6() {
-    compressed::<6>();
-}
 
-// @harness props=C14,C01 tier=thorough mem=12 t=3000 kani="--no-assertion-reach-checks" fn="name::wire::parse_compressed_name,name::wire::parse_pointer,name::new_boxed_name"
-//   bound="every buffer of exactly 7 octets, every start offset 0..=N+1 (so at and beyond the end); unwind 9"
-//   stubs="S7"
-//   sym="buf:[u8;7], start<=8"
-#[kani::proof]
-#[kani::unwind(9)]
-#[kani::stub(arrayvec::ArrayVec::try_extend_from_slice, try_extend_model)]
-fn c14_compressed_len7() {
-    compressed::<7>();
-}
 
 fn uncompressed<const N: usize>() {
     let buf: [u8; N] = kani::any();
@@ -293,37 +273,11 @@ fn c14_long_parse_uncompressed() {
     core::mem::forget(r);
 }
 
-// @harness props=C14,C01 tier=thorough mem=12 t=2400 kani="--no-assertion-reach-checks" fn="name::wire::parse_compressed_name,name::wire::parse_pointer,name::new_boxed_name"
-//   bound="same 270-octet long-name buffer; start 0 (one chunk, 194+l octets) and start 262 (label + pointer, 196+l octets); symbolic fourth length octet; unwind 8 (real ArrayVec::try_extend_from_slice)"
-//   sym="l:u8"
-#[kani::proof]
-#[kani::unwind(8)]
-fn c14_long_parse_compressed() {
-    let l: u8 = kani::any();
-    let b = long_buf(l);
-    let e = ref_uncompressed(&b);
-    let r = parse_compressed_name(&b, 0);
-    let plain = l < 64; // the fourth label is an ordinary label
-    match (&r, &e) {
-        (Ok((name, n)), Ok(en)) => {
-            assert!(*n == *en, "[C14] first-chunk length equals the reference's (long names)");
-            assert!(name.wire_repr().len() == *en, "[C14] long compressed-parse name has the reference's wire length");
-        }
-        (Err(_), Err(_)) => {}
-        (Ok(_), Err(_)) => assert!(false, "[C14] try_from_compressed accepts a long name the reference rejects"),
-        (Err(_), Ok(_)) => assert!(false, "[C14] try_from_compressed rejects a long name the reference accepts"),
-    }
-    let r2 = parse_compressed_name(&b, 262);
-    let ok2 = plain && (2 + 194 + l as usize) <= 255;
-    if plain {
-        assert!(r2.is_ok() == ok2, "[C14] label + pointer name accepted iff its uncompressed length is <= 255");
-    }
-    if let Ok((name2, n2)) = &r2 {
-        assert!(*n2 == 4, "[C14] first chunk of label + pointer is 4 octets");
-        assert!(name2.wire_repr().len() == 2 + 194 + l as usize, "[C14] label + pointer name has the summed wire length");
-    }
-    kani::cover!(l == 59 && r2.is_ok(), "255-octet name through a pointer accepted");
-    kani::cover!(l == 60 && r2.is_err(), "256-octet name through a pointer rejected");
-    core::mem::forget(r);
-    core::mem::forget(r2);
-}
+
+// (Tried and dropped, measured: compressed parsing of 6- and 7-octet buffers was
+// not calibrated within the time budget (5 octets: ~14 min / 13 GB), and
+// `parse_compressed_name` on the 270-octet long-name buffer - where the real
+// ArrayVec::try_extend_from_slice copies a label of symbolic length - ran out
+// of memory at 29 GB.  The 255/256 boundary of the compressed parser is
+// therefore only covered through `skip_compressed_name` and the uncompressed
+// parser above.)
